@@ -73,7 +73,18 @@ func chainFor(kind string) *pki.Chain {
 	// for the key itself
 	leaf := pki.LeafSpec(pki.K(kind, 0), "c02"+kind+"-leaf")
 	leaf.SKI = []byte("c02-shared-key-id-20b")
-	c := pki.MustBuild(leaf, pki.CASpec(pki.K("p256", 1), "c02"+kind+"-root"))
+	// ... and is certified by an RSA CA with RSASSA-PSS under a hash that is NOT
+	// the one the leaf key dictates: how the ISSUER signed a certificate says
+	// nothing about the subject key
+	switch kind {
+	case "rsa3072", "p384":
+		leaf.SigAlg = x509.SHA512WithRSAPSS
+	case "rsa4096", "p521":
+		leaf.SigAlg = x509.SHA256WithRSAPSS
+	default:
+		leaf.SigAlg = x509.SHA384WithRSAPSS
+	}
+	c := pki.MustBuild(leaf, pki.CASpec(pki.K("rsa3072", 1), "c02"+kind+"-root"))
 	chains[kind] = c
 	return c
 }
